@@ -16,7 +16,7 @@ import numpy
 
 from .. import compat  # noqa: F401
 from ..core import Violation, require, digest
-from ..env import ScriptedGenerator, MeiosisHandler, Handler, shape_of, UnscriptedDraw
+from ..env import ScriptedGenerator, Handler, shape_of, UnscriptedDraw
 from ..explore import explore, Chooser, bfs
 from ..ref import genostats as R
 
@@ -365,7 +365,7 @@ def events(s, nmax, level):
         level = "L"
     big = {"q": 1, "T": 2, "L": 1}[level]
     med = {"q": 2, "T": FULL, "L": 1}[level]
-    two = FULL
+    two = FULL                    # 2-gamete events: every answer, at every level
     ev = []
     if s == 1:
         ev += [("SelfCross", [[0]], 1, 1, 0, two),
